@@ -179,7 +179,7 @@ def cases(chunk):
                 if rng.random() < dens:
                     bits |= 1 << i
             yield {"kind": "split", "n": n, "bits": bits, "via": rng.choice(["direct", "seg"]),
-                   "rep": rng.choice(["float", "int"]), "mode": rng.choice(["AND", "OR"])}
+                   "rep": rng.choice(["float", "int"]), "mode": rng.choice(["AND", "OR"]), "limit_x": 3}
     elif kind == "segrand":
         rng = gen.rng_for(PROP, chunk)
         for _ in range(chunk["n"]):
